@@ -903,3 +903,24 @@ Proof.
       * intros [Hx|(j & Hj & Hfj)]; [discriminate|]. exists j. split; [apply HinV; exact Hj|exact Hfj].
       * intros (j & Hj & Hfj). right. exists j. split; [apply Hall'; exact Hj|exact Hfj].
 Qed.
+
+(* the four name facts of C19 in one statement about every reachable registry *)
+Theorem names_summary es r :
+  rsteps rinit es = Some r ->
+  (forall a b n, kfind a (tokens r) = Some n -> kfind b (tokens r) = Some n -> a = b) /\
+  (forall n a, lookup r n = Some a -> kfind a (tokens r) = Some n) /\
+  (forall a n, kfind a (tokens r) = Some n ->
+     (lookup r n = None \/ lookup r n = Some a) /\
+     exists r', rstep r (RActivate a) = Some r' /\ lookup r' n = Some a) /\
+  (forall a n r', kfind a (tokens r) = Some n -> rstep r (RRelease a) = Some r' ->
+     lookup r' n = None /\
+     forall b, kfind b (tokens r') = None -> exists r'', rstep r' (RReserve b n true) = Some r'').
+Proof.
+  intros H. split; [intros a b n; apply (names_unique _ _ _ _ _ H)|].
+  split; [intros n a; apply (lookup_is_holder _ _ _ _ H)|]. split.
+  - intros a n Ha. split; [|exact (holder_can_activate _ _ _ _ H Ha)].
+    destruct (rreachable_inv _ _ H) as [U Hh E]. unfold lookup.
+    destruct (Hh _ _ Ha) as [T|T]; rewrite T; [left|right]; reflexivity.
+  - intros a n r' Ha Hs. destruct (released_is_free _ _ _ _ Ha Hs) as (H1 & _ & H3).
+    split; assumption.
+Qed.
